@@ -29,7 +29,7 @@ pub use peer::Peer;
 mod request_handler;
 mod wire;
 
-#[cfg(bmwill_anemo_verif)]
+#[cfg(all(bmwill_anemo_verif, not(bmwill_anemo_verif_nodirect)))]
 pub(crate) mod verif_exports {
     pub(crate) use super::connection_manager::{
         verif_active_peers_add as active_peers_add, verif_tie_break as tie_break, ActivePeers,
